@@ -243,3 +243,31 @@ func VH_c05_zero_value() {
 	zz.Quiesce()
 	zz.Assert(calls == 0, "zero Promise/Future: registrations are ignored")
 }
+
+// executors passed as a spread slice that the caller reuses afterwards (sets the slot to nil or to another
+// executor): every registered callback still runs exactly once with the result, the completion returns true and
+// nothing panics
+type counting struct{ n *int }
+
+func (c counting) ExecuteUnsafe(r fp.Runnable) { *c.n++; r.Run() }
+
+func VH_c05_executor_slice_reused() {
+	execs := []fp.Executor{inline{}}
+	w := &world{p: fp.NewPromise[int](), exec: execs}
+	w.register(kOnComplete)
+	w.register(kOnSuccess)
+	w.register(kForeach)
+	other := 0
+	if zz.Bool("slot.nil") {
+		execs[0] = nil
+	} else {
+		execs[0] = counting{&other}
+	}
+	v := zz.Int("v")
+	zz.Assert(w.p.Success(v), "completion of a pending promise returns true")
+	zz.Quiesce()
+	for _, r := range w.cbs {
+		zz.Assert(r.calls == 1 && r.val == v, "callback registered with a spread executor slice runs exactly once with the value")
+	}
+	zz.Assert(w.p.Value().Get() == v && !w.p.Success(zz.Int("w")), "the result is stored once")
+}
